@@ -270,11 +270,14 @@ impl TlsDemux {
             match parsed_alpn
                 .iter()
                 .filter(|x| matches!(x, Protocol::Http1 | Protocol::Http3))
+                .filter(|x| self.tunnel_protocols.contains(x))
                 .max()
                 .cloned()
             {
                 Some(x) => (x, Channel::ReverseProxy, h, None),
-                None if alpn.clone().peekable().peek().is_none() => {
+                None if self.tunnel_protocols.contains(&DEFAULT_PROTOCOL)
+                    && alpn.clone().peekable().peek().is_none() =>
+                {
                     (DEFAULT_PROTOCOL, Channel::ReverseProxy, h, None)
                 }
                 None => {
@@ -286,22 +289,15 @@ impl TlsDemux {
             }
         } else if let Some(h) = self.ping_hosts.get(&sni) {
             (
-                parsed_alpn
-                    .iter()
-                    .max()
-                    .cloned()
-                    .unwrap_or(DEFAULT_PROTOCOL),
+                // only a protocol the listener has enabled can be served
+                self.select_tunnel_channel_protocol(parsed_alpn.iter(), alpn)?,
                 Channel::Ping,
                 h,
                 None,
             )
         } else if let Some(h) = self.speedtest_hosts.get(&sni) {
             (
-                parsed_alpn
-                    .iter()
-                    .max()
-                    .cloned()
-                    .unwrap_or(DEFAULT_PROTOCOL),
+                self.select_tunnel_channel_protocol(parsed_alpn.iter(), alpn)?,
                 Channel::Speedtest,
                 h,
                 None,
@@ -362,7 +358,7 @@ impl TlsDemux {
                 Ok(DEFAULT_PROTOCOL)
             }
             None => Err(format!(
-                "Unexpected ALPN on reverse proxy connection {:?}",
+                "None of advertised ALPNs is enabled {:?}",
                 advertised_alpn.map(utils::hex_dump).collect::<Vec<_>>()
             )),
         }
